@@ -10,6 +10,7 @@ pub mod c12;
 pub mod ffi;
 pub mod registry;
 pub mod stubs;
+pub mod toy;
 pub mod vk;
 #[cfg(not(kani))]
 pub mod witness;
